@@ -546,23 +546,31 @@ def cr12_layout_facts(wire, tls12, types, sig, cas):
     o = (5 + nt + 2 + ns) if tls12 else (5 + nt)
     body = o + 2 + cal - 4
 
-    def u(lo, n):
-        return VInt(smt.s_val(smt.s_slice(wire.t, _lift(lo).t, (_lift(lo) + n).t)))
+    # every fact is stated in the plain form and in the form that instantiates on any slice / element term of `wire`
+    # (CC.header_at / CC.region_at / position-indexed content): both are proved on the write side
+    def u(lo, n, v):
+        return S.And(VInt(smt.s_val(smt.s_slice(wire.t, _lift(lo).t, (_lift(lo) + n).t))) == v, CC.header_at(wire, lo, n, v))
+
+    def content(q_, dn_):
+        return S.And(S.forall(lambda t: at(wire, q_ + 2 + t) == at(dn_, t), 0, S.len_(dn_)),
+                     S.forall(lambda i: at(wire, i) == at(dn_, i - q_ - 2), q_ + 2, q_ + 2 + S.len_(dn_)))
     facts = [('length', S.And(S.len_(wire) == 4 + body, S.is_bytes(wire))),
              ('msg_type', at(wire, 0) == CR_T),
-             ('uint24-length', u(1, 3) == body),
-             ('certificate_types-length', u(4, 1) == nt),
-             ('certificate_types', S.forall(lambda k: elem_at(wire, _lift(5), k, 1) == at(types, k), 0, nt))]
+             ('uint24-length', u(1, 3, body)),
+             ('certificate_types-length', u(4, 1, nt)),
+             ('certificate_types', S.And(S.forall(lambda k: elem_at(wire, _lift(5), k, 1) == at(types, k), 0, nt),
+                                         CC.region_at(wire, _lift(5), types, _lift(1))))]
     if tls12:
-        facts += [('signature_algorithms-length', S.And(u(5 + nt, 2) == ns, ns % 2 == 0, div(ns, 2) == S.len_(sig))),
-                  ('signature_algorithms', S.forall(lambda k: S.And(elem_at(wire, 7 + nt, k * 2, 1) == at(sig, k)[0],
-                                                                    elem_at(wire, 7 + nt, k * 2 + 1, 1) == at(sig, k)[1]),
-                                                    0, S.len_(sig)))]
-    facts.append(('certificate_authorities-length', u(o, 2) == cal))
+        facts += [('signature_algorithms-length', S.And(u(5 + nt, 2, ns), ns % 2 == 0, div(ns, 2) == S.len_(sig))),
+                  ('signature_algorithms', S.And(S.forall(lambda k: S.And(elem_at(wire, 7 + nt, k * 2, 1) == at(sig, k)[0],
+                                                                          elem_at(wire, 7 + nt, k * 2 + 1, 1) == at(sig, k)[1]),
+                                                          0, S.len_(sig)),
+                                                 CC.region_at(wire, 7 + nt, sig, _lift(1), 2)))]
+    facts.append(('certificate_authorities-length', u(o, 2, cal)))
     q = o + 2
     for j, dn in enumerate(cas):
-        facts.append(('DistinguishedName-%d-length' % j, u(q, 2) == S.len_(dn)))
-        facts.append(('DistinguishedName-%d' % j, (lambda q_, dn_: S.forall(lambda t: at(wire, q_ + 2 + t) == at(dn_, t), 0, S.len_(dn_)))(q, dn)))
+        facts.append(('DistinguishedName-%d-length' % j, u(q, 2, S.len_(dn))))
+        facts.append(('DistinguishedName-%d' % j, content(q, dn)))
         q = q + 2 + S.len_(dn)
     return facts, o, cal
 
@@ -652,7 +660,8 @@ def _mk_cr12_lemmas(tls12, k):
         st.assume((declared != cal).t)
         for (nm, f) in facts:
             if nm == 'certificate_authorities-length':
-                f = VInt(smt.s_val(smt.s_slice(wire.t, _lift(o).t, (_lift(o) + 2).t))) == declared
+                f = S.And(VInt(smt.s_val(smt.s_slice(wire.t, _lift(o).t, (_lift(o) + 2).t))) == declared,
+                          CC.header_at(wire, o, 2, declared))
             st.assume(_lift(f).t)
         p, st2 = _parser_at(api, st, wire, 1)
         _must_raise(api, _method(api, y, 'parse', [p], st2), 'parse-with-wrong-ca-length', DecodeError)
